@@ -6,8 +6,8 @@
 #include <ctype.h>
 extern void dreadtriple_noheader(int *, int *, int_t *, double **, int_t **, int_t **);
 
-static const char *const CNT[] = { "hb_files", "rb_files", "mm_files", "triplet_files", "triplet_noheader_files", "symmetric_files", "sym_all_diag", "sym_some_diag", "sym_no_diag", "with_rhs_block", "D_exponent", "P_scale", "F_editing", "complex_files", "zero_based", "comment_lines", "hb_descending_row_order", NULL };
-enum { K_HB, K_RB, K_MM, K_TR, K_TRN, K_SYM, K_SALL, K_SSOME, K_SNONE, K_RHS, K_DEXP, K_PSC, K_FED, K_CPLX, K_ZB, K_COMM, K_DESC };
+static const char *const CNT[] = { "hb_files", "rb_files", "mm_files", "triplet_files", "triplet_noheader_files", "symmetric_files", "sym_all_diag", "sym_some_diag", "sym_no_diag", "with_rhs_block", "D_exponent", "P_scale", "F_editing", "complex_files", "zero_based", "comment_lines", "hb_descending_row_order", "hb_full_width_integer_fields", NULL };
+enum { K_HB, K_RB, K_MM, K_TR, K_TRN, K_SYM, K_SALL, K_SSOME, K_SNONE, K_RHS, K_DEXP, K_PSC, K_FED, K_CPLX, K_ZB, K_COMM, K_DESC, K_TIGHT };
 static const char *const RAT[] = { NULL };
 
 /* ------------------------------------------------------------- matrices */
@@ -39,7 +39,8 @@ static void sb_printf(sbuf *s, const char *fmt, ...)
 /* value edit descriptors */
 static const struct { const char *fmt; int per, width, prec; char kind; int dexp, pscale; } VF[] = {
     { "(5E16.8)", 5, 16, 8, 'E', 0, 0 }, { "(4E20.12)", 4, 20, 12, 'E', 0, 0 }, { "(3D24.16)", 3, 24, 16, 'E', 1, 0 }, { "(1P4E20.12)", 4, 20, 12, 'E', 0, 1 }, { "(8F10.3)", 8, 10, 3, 'F', 0, 0 }, { "(2E25.17)", 2, 25, 17, 'E', 0, 0 } };
-static const struct { const char *fmt; int per, width; } IF[] = { { "(16I5)", 16, 5 }, { "(10I8)", 10, 8 }, { "(8I10)", 8, 10 }, { "(1I14)", 1, 14 } };
+static const struct { const char *fmt; int per, width; } IF[] = { { "(16I5)", 16, 5 }, { "(10I8)", 10, 8 }, { "(8I10)", 8, 10 }, { "(1I14)", 1, 14 }, { "(40I2)", 40, 2 }, { "(80I1)", 80, 1 } };   /* the last two: fields filled to their full width, no blank between neighbours */
+#define NIF 6
 static void fmt_value(char *out, double v, int vf)
 {
     char tmp[64];
@@ -126,7 +127,7 @@ static void s_mm(const int *d, vcase *c) { pat_small(d[0], c); c->aux = 2; c->au
 static void s_tr(const int *d, vcase *c) { pat_small(d[0], c); c->aux = 3; c->rhs = d[1]; c->permid = d[2]; c->type = d[3]; c->vals = d[0] % 4; }
 static void s_trn(const int *d, vcase *c) { pat_small(d[0], c); c->aux = 4; c->rhs = d[1]; c->permid = d[2]; c->type = TD; c->vals = d[0] % 4; }
 static const family F16[] = {
-    { "HB/RB: (ALL(1..3) + DEV_1(BASE(5))) x {HB,RB} x 6 value formats x 4 integer formats x {general, symmetric, symmetric with descending rows, general with descending rows} x {no rhs, rhs block} x type4", 7, { NPAT, 2, 6, 4, 4, 2, 4 }, s_hb },
+    { "HB/RB: (ALL(1..3) + DEV_1(BASE(5))) x {HB,RB} x 6 value formats x 6 integer formats (two with fields filled to their full width) x {general, symmetric, symmetric with descending rows, general with descending rows} x {no rhs, rhs block} x type4", 7, { NPAT, 2, 6, 6, 4, 2, 4 }, s_hb },
     { "Matrix Market: patterns x {general, symmetric} x {plain, comment lines, comment lines + blank line} x 24 entry orders x type4", 5, { NPAT, 2, 3, 24, 4 }, s_mm },
     { "triplet with header: patterns x {1-based, 0-based} x 24 entry orders x type4", 4, { NPAT, 2, 24, 4 }, s_tr },
     { "triplet without header (EXAMPLE/dreadtriple_noheader.c): patterns x {1-based,0-based} x 24 entry orders", 3, { NPAT, 2, 24 }, s_trn },
@@ -149,7 +150,11 @@ static void run_C16(const vcase *c, vres *r)
     if (T->cplx) WK_COUNT(K_CPLX);
     int zero_based = 0;
     if (c->aux <= 1) {
-        write_hb(&s, T, &A, symmetric, c->aux2, (c->aux2 + 1) % 4, c->k, c->rhs, c->aux == 1, &E);
+        { int pf = c->aux2, xf = (c->aux2 + 1) % NIF; long lim[] = { 100000, 100000000, 2000000000, 2000000000, 100, 10 };
+          long nst = symmetric ? stored : stored;       /* pointers run up to stored+1, indices up to n */
+          if (nst + 1 >= lim[pf] || n >= lim[xf]) { free(s.p); r->status = 2; return; }      /* the numbers must fit the declared field width */
+          if (pf >= 4 || xf >= 4) WK_COUNT(K_TIGHT);
+          write_hb(&s, T, &A, symmetric, pf, xf, c->k, c->rhs, c->aux == 1, &E); }
         WK_COUNT(c->aux == 0 ? K_HB : K_RB); if (c->rhs && c->aux == 0) WK_COUNT(K_RHS); if (VF[c->k].dexp) WK_COUNT(K_DEXP); if (VF[c->k].pscale) WK_COUNT(K_PSC); if (VF[c->k].kind == 'F') WK_COUNT(K_FED);
     } else {
         long ne = stored; int order = c->permid;
